@@ -8,6 +8,7 @@ import sched as S
 THEOREMS_DEPEND_ON = ['Gen/AgreeCodec.v']
 COMP = 120
 COMP_MULTI = 121
+COMP_FAN = 123
 KINDS = {'echo': (0, 1), 'device': (1, 1), 'ioport': (1, 0)}      # -> (kind, same_lock) of Model/Conc.v
 
 
@@ -440,6 +441,20 @@ def enc_multi_case(progs, trace):
     return c + list(trace)
 
 
+def enc_fan_case(progs, trace):
+    c = [2, len(progs)]
+    for p in progs:
+        c.append(len(p))
+        for op in p:
+            if op[0] == 'send':
+                c += [0] + list(op[1])
+            elif op[0] == 'recv':
+                c += [1, op[-1] - 1, op[1]]
+            else:
+                c += [2, op[-1] - 1]
+    return c + list(trace)
+
+
 def dec_case(case):
     kind = {(0, 1): 'echo', (1, 1): 'device', (1, 0): 'ioport'}[(case[1], case[2])]
     n, i, progs = case[3], 4, []
@@ -485,6 +500,17 @@ def job(j):
                     cache[tuple(c)] = (out, fail, 'multi-fan-in:' + mode)
                     cases.append(c)
             rec = core.eval_cases(COMP_MULTI, cases, lambda c: cache[tuple(c)])
+            return (kind, mode, exhausted, len(runs)), rec
+        fan_out = all((op[0] == 'send' and op[-1] == 0) or (op[0] != 'send' and op[-1] >= 1) for p in progs for op in p)
+        if fan_out:
+            # senders on the MultiPort, receivers on the sub-ports: this is what Model/ConcFan.v describes - replay every run on it
+            cache, cases = {}, []
+            for trace, out, fail in runs:
+                c = enc_fan_case(progs, trace)
+                if tuple(c) not in cache:
+                    cache[tuple(c)] = (out, fail, 'multi-fan-out:' + mode)
+                    cases.append(c)
+            rec = core.eval_cases(COMP_FAN, cases, lambda c: cache[tuple(c)])
             return (kind, mode, exhausted, len(runs)), rec
         rec = {'n': len(runs), 'dis': [], 'fail': [], 'dist': {'multi:' + mode: len(runs)}, 'hashes': {hash(tuple(r[0])) for r in runs}, 'ndis': 0, 'nfail': 0}
         for trace, _, fail in runs:
@@ -564,6 +590,8 @@ def run(out):
         [[('send', m1, 1)], [('send', m2, 2)], [('recv', 0, 0)], [('recv', 0, 0)]],                      # fan-in, two pollers
         [[('send', m1, 1), ('send', m2, 1)], [('recv', 1, 0)], [('iterp', 0)]],                           # fan-in, order from one sender
         [[('send', m1, 0)], [('recv', 0, 1)], [('recv', 0, 2)], [('recv', 0, 1)]],                        # fan-out
+        [[('send', m1, 0)], [('send', m2, 0)], [('recv', 1, 1), ('recv', 0, 1)], [('iterp', 2)]],          # fan-out, two senders: one order on both sub-ports
+        [[('send', m1, 0), ('send', m2, 0)], [('iterp', 1)], [('recv', 0, 2), ('recv', 1, 2)]],            # fan-out, order from one sender
         [[('send', m1, 1)], [('send', m2, 2)], [('recv', 1, 0)], [('recv', 0, 1)]],                       # via the MultiPort and directly
         [[('send', m1, 0), ('send', m2, 1)], [('iterp', 0)], [('recv', 0, 2), ('recv', 0, 0)]],
     ]
@@ -583,8 +611,13 @@ def run(out):
                 '(depth-first, stateless), for %d larger ones seeded random and priority schedules; each executed schedule is replayed on the model (same thread ids, same '
                 'steps) and the per-thread results, the final queue, the device buffer and the number of sleeps are compared; the oracle checks on the real run: no exception, '
                 'nothing lost / duplicated / invented, per-sender order, received objects are copies. MultiPort (fan-in from and fan-out to two EchoPorts, every lock and deque '
-                'scheduled): the same oracle on the real run, not modelled. Non-trivial: every run; distinct by schedule.'
+                'scheduled): the same oracle on the real run; pure fan-in runs are replayed on ConcMulti.v, pure fan-out runs on ConcFan.v, mixed use is not modelled. Non-trivial: every run; distinct by schedule.'
                 % (len(small), 2 if quick else 3, len(more)))
+    from props import c10_copy
+    ncopy = c10_copy.run(out, rng)
+    out.rule += (' Copies: %d histories of creating, editing, sending, receiving and editing again on every port kind (EchoPort by receive / poll / iter_pending, IOPort over one '
+                 'EchoPort and over an input and an output joined by a cable, MultiPort fan-in with and without yield_ports, MultiPort fan-out to 1-3 sub-ports) against the '
+                 'heap model SendCopy.v and the statement (value at send time, identity).' % ncopy)
     out.sample({'component': COMP, 'case': enc_case('echo', small[0], [0, 0, 0, 1, 1, 1, 1, 2, 2, 2])})
     cases = [enc_case(k, small[i % len(small)], [rng.randrange(len(small[i % len(small)])) for _ in range(40)]) for i, k in enumerate(['echo', 'device', 'ioport'] * 10)]
     core.kernel_crosscheck(out, [(COMP, c) for c in cases], 'C10')
